@@ -164,8 +164,12 @@ class Ctx:
 
     def finish(self, rule: str, explanation: str = "", exhaustive: bool | None = None) -> int:
         self.phase("finish")
-        os.makedirs(os.path.join(VERIF, "evidence"), exist_ok=True)
-        os.makedirs(os.path.join(VERIF, "replays"), exist_ok=True)
+        # Evidence and replay files belong to /repo's working tree.  A run against a scratch worktree (VERIF_REPO, only used to
+        # try seeded changes) writes them to a scratch directory instead, so that it can never overwrite committed evidence.
+        repo = os.environ.get("VERIF_REPO", "/repo").rstrip("/")
+        out_root = VERIF if repo == "/repo" else os.path.join("/tmp/verif_scratch", repo.strip("/").replace("/", "_"))
+        os.makedirs(os.path.join(out_root, "evidence"), exist_ok=True)
+        os.makedirs(os.path.join(out_root, "replays"), exist_ok=True)
         self.cov["distinct_nontrivial"] = len(self._distinct)
         self.cov["rule"] = rule
         if explanation:
@@ -184,7 +188,7 @@ class Ctx:
                 continue
             seen.add(key)
             nviol += 1
-            path = os.path.join(VERIF, "replays", "%s_%s.json" % (self.prop, key))
+            path = os.path.join(out_root, "replays", "%s_%s.json" % (self.prop, key))
             with open(path, "w") as fh:
                 json.dump({"property": self.prop, "seed": self.seed, "tier": self.tier, **v}, fh, indent=1, default=str)
             if nviol <= 20:
@@ -195,7 +199,7 @@ class Ctx:
               "wall_s": round(time.time() - self.t0, 2), "violations": len(self.violations)}
         if not self.cov["samples"]:
             self.cov["samples"] = ["(no sample recorded)"]
-        with open(os.path.join(VERIF, "evidence", self.prop + ".json"), "w") as fh:
+        with open(os.path.join(out_root, "evidence", self.prop + ".json"), "w") as fh:
             json.dump(ev, fh, indent=1, default=str)
         print("%s %s: evaluations=%d distinct=%d traces=%d states=%d violations=%d known=%s wall=%.1fs" % (
             self.prop, self.tier, self.cov["evaluations"], self.cov["distinct_nontrivial"],
